@@ -3,6 +3,7 @@ import NfcVerif.Model.FnTagCmdRef
 import NfcVerif.Model.AdvT34
 import NfcVerif.Model.Auth
 import NfcVerif.Model.T3Emu
+import NfcVerif.Model.CtlC03
 import NfcVerif.Lemmas.FnBridgeTagCmdPrelude
 import NfcVerif.Lemmas.FnBridgeTlv
 import NfcVerif.Lemmas.Tlv
